@@ -66,7 +66,7 @@ def check_markers(tag, line, kind, points, plotted, fs, a, b, complete):
     for si, yi in zip(s, y):
         if si not in allowed:
             raise Violation(tag + ':marker-not-a-cyclepoint', '%s marker at sample %d (t=%.5f) is not a %s of the table (window [%s, %s))' % (kind, si, si / fs, kind, a, b))
-        if not (0 <= si < len(plotted)) or yi != plotted[si]:
+        if not (0 <= si < len(plotted)) or not (yi == plotted[si] or (np.isnan(yi) and np.isnan(plotted[si]))):
             raise Violation(tag + ':marker-off-the-signal', '%s marker at sample %d has y=%r, the plotted signal there is %r' % (
                 kind, si, yi, plotted[si] if 0 <= si < len(plotted) else None))
     if complete:
@@ -105,7 +105,7 @@ def check_summary_axes(tag, axes, df, x, fs, th, a, b, plot_only_result, interp)
     sig_line, burst_line = plain[0], plain[1]
     sx, sy = xy(sig_line)
     s_idx = np.rint(np.asarray(sx, dtype=float) * fs).astype(int)
-    if len(s_idx) and (np.max(np.abs(np.asarray(sx) - s_idx / fs)) >= 0.25 / fs or not np.array_equal(np.asarray(sy, dtype=float), z[s_idx])):
+    if len(s_idx) and (np.max(np.abs(np.asarray(sx) - s_idx / fs)) >= 0.25 / fs or not ref.same_float(np.asarray(sy, dtype=float), z[s_idx])):
         raise Violation(tag + ':signal-trace', 'the black trace is not the normalised signal on the window')
     bx, by = xy(burst_line)
     b_idx = np.rint(np.asarray(bx, dtype=float) * fs).astype(int)
